@@ -204,6 +204,38 @@ Proof. reflexivity. Qed.
 Lemma nmp_on_board_nat h w y x : y < h -> x < w -> on_board h w (Z.of_nat y) (Z.of_nat x) = true.
 Proof. intros Hy Hx. unfold on_board. rewrite !andb_true_iff, !Z.leb_le, !Z.ltb_lt. lia. Qed.
 
+Lemma nmp_cell_true_gen h w wv wh mark sy sx gy gx (wht pth : nat * nat -> bool) y x (e : bool) :
+  nm_is y x sy sx || nm_is y x gy gx = e ->
+  (nm_cell_sem h w wv wh mark sy sx gy gx wht pth (y, x) = true <->
+   ((nmp_open_right w wv y x -> wht (y, x) = wht (y, S x)) /\
+    (nmp_open_down h w wh y x -> wht (y, x) = wht (S y, x)) /\
+    (if e then pth (y, x) = true /\ count pth (nbr4 h w y x) = 1
+     else pth (y, x) = true -> count pth (nbr4 h w y x) = 2) /\
+    (let m := at2 mark w y x in
+     ((m =? 0)%Z || wht (y, x)) &&
+     (if (m =? 1)%Z then pth (y, x) else if (m =? 2)%Z then negb (pth (y, x)) else true)) = true)).
+Proof.
+  intros He. unfold nm_cell_sem. rewrite He. cbv zeta. rewrite !andb_true_iff.
+  assert (A : (if Nat.ltb (S x) w && (at2 wv (w - 1) y x =? 0)%Z then Bool.eqb (wht (y, x)) (wht (y, S x)) else true) = true
+              <-> (nmp_open_right w wv y x -> wht (y, x) = wht (y, S x))).
+  { unfold nmp_open_right. destruct (Nat.ltb_spec (S x) w), (Z.eqb_spec (at2 wv (w - 1) y x) 0); cbn [andb];
+      rewrite ?eqb_true_iff; split; intros; try reflexivity; try tauto; try lia. }
+  assert (B : (if Nat.ltb (S y) h && (at2 wh w y x =? 0)%Z then Bool.eqb (wht (y, x)) (wht (S y, x)) else true) = true
+              <-> (nmp_open_down h w wh y x -> wht (y, x) = wht (S y, x))).
+  { unfold nmp_open_down. destruct (Nat.ltb_spec (S y) h), (Z.eqb_spec (at2 wh w y x) 0); cbn [andb];
+      rewrite ?eqb_true_iff; split; intros; try reflexivity; try tauto; try lia. }
+  assert (C : (if e
+               then pth (y, x) && Nat.eqb (count pth (nbr4 h w y x)) 1
+               else implb (pth (y, x)) (Nat.eqb (count pth (nbr4 h w y x)) 2)) = true
+              <-> (if e
+                   then pth (y, x) = true /\ count pth (nbr4 h w y x) = 1
+                   else pth (y, x) = true -> count pth (nbr4 h w y x) = 2)).
+  { destruct e.
+    - rewrite andb_true_iff, Nat.eqb_eq. reflexivity.
+    - destruct (pth (y, x)); cbn [implb]; rewrite ?Nat.eqb_eq; split; intros; try reflexivity; try discriminate; auto. }
+  rewrite A, B, C. tauto.
+Qed.
+
 Section Core.
   Variables (h w : nat) (wv wh mark : list Z) (ys xs yg xg : nat).
   Hypothesis (Hys : ys < h) (Hxs : xs < w) (Hyg : yg < h) (Hxg : xg < w).
@@ -291,27 +323,7 @@ Section Core.
      (let m := at2 mark w y x in
       ((m =? 0)%Z || wht (y, x)) &&
       (if (m =? 1)%Z then pth (y, x) else if (m =? 2)%Z then negb (pth (y, x)) else true)) = true).
-  Proof.
-    intros Hx. unfold nm_cell_sem. rewrite (nmp_ends y x Hx). cbv zeta. rewrite !andb_true_iff.
-    assert (A : (if Nat.ltb (S x) w && (at2 wv (w - 1) y x =? 0)%Z then Bool.eqb (wht (y, x)) (wht (y, S x)) else true) = true
-                <-> (nmp_open_right w wv y x -> wht (y, x) = wht (y, S x))).
-    { unfold nmp_open_right. destruct (Nat.ltb_spec (S x) w), (Z.eqb_spec (at2 wv (w - 1) y x) 0); cbn [andb];
-        rewrite ?eqb_true_iff; split; intros; try reflexivity; try tauto; try lia. }
-    assert (B : (if Nat.ltb (S y) h && (at2 wh w y x =? 0)%Z then Bool.eqb (wht (y, x)) (wht (S y, x)) else true) = true
-                <-> (nmp_open_down h w wh y x -> wht (y, x) = wht (S y, x))).
-    { unfold nmp_open_down. destruct (Nat.ltb_spec (S y) h), (Z.eqb_spec (at2 wh w y x) 0); cbn [andb];
-        rewrite ?eqb_true_iff; split; intros; try reflexivity; try tauto; try lia. }
-    assert (C : (if Nat.eqb (y * w + x) s || Nat.eqb (y * w + x) t
-                 then pth (y, x) && Nat.eqb (count pth (nbr4 h w y x)) 1
-                 else implb (pth (y, x)) (Nat.eqb (count pth (nbr4 h w y x)) 2)) = true
-                <-> (if Nat.eqb (y * w + x) s || Nat.eqb (y * w + x) t
-                     then pth (y, x) = true /\ count pth (nbr4 h w y x) = 1
-                     else pth (y, x) = true -> count pth (nbr4 h w y x) = 2)).
-    { destruct (Nat.eqb (y * w + x) s || Nat.eqb (y * w + x) t).
-      - rewrite andb_true_iff, Nat.eqb_eq. reflexivity.
-      - destruct (pth (y, x)); cbn [implb]; rewrite ?Nat.eqb_eq; split; intros; try reflexivity; try discriminate; auto. }
-    rewrite A, B, C. tauto.
-  Qed.
+  Proof. intros Hx. apply nmp_cell_true_gen. apply nmp_ends. exact Hx. Qed.
 
   Lemma nmp_core_sound (Pi : nat -> bool) :
     tree g Wi -> SEM white (fun c => Pi (cidx w c)) = true -> CORE Wi = true.
@@ -391,6 +403,58 @@ Section Core.
   Qed.
 End Core.
 
+(* ------------------------------------------------------------------ a single end *)
+Lemma nmp_is_off h w y x py px : on_board h w py px = false -> y < h -> x < w -> nm_is y x py px = false.
+Proof.
+  intros Hb Hy Hx. unfold nm_is. destruct (Z.eqb_spec (Z.of_nat y) py) as [<-|]; [|reflexivity].
+  destruct (Z.eqb_spec (Z.of_nat x) px) as [<-|]; [|reflexivity].
+  rewrite nmp_on_board_nat in Hb by assumption. discriminate.
+Qed.
+
+Section OneEndCore.
+  Variables (h w : nat) (wv wh mark : list Z) (sy sx gy gx : Z) (ys xs : nat).
+  Hypothesis (Hys : ys < h) (Hxs : xs < w).
+  Notation s := (ys * w + xs).
+  (* the only cell that is S or G *)
+  Hypothesis Hends : forall y x, y < h -> x < w -> nm_is y x sy sx || nm_is y x gy gx = Nat.eqb (y * w + x) s.
+  Variable Wi : nat -> bool.
+  Hypothesis HWn : forall v, Wi v = true -> v < h * w.
+  Notation g := (grid_graph h w).
+
+  Lemma nmp_one_end (Pi : nat -> bool) :
+    tree g Wi -> nm_sem h w wv wh mark sy sx gy gx (fun c => Wi (cidx w c)) (fun c => Pi (cidx w c)) = true -> False.
+  Proof.
+    intros Htree Hsem. apply nmp_sem_true in Hsem. destruct Hsem as [_ [_ [Himp Hcell]]].
+    destruct (proj1 (tree_iff_bridges g Wi (grid_wf h w)) Htree) as [Hconn Hbr].
+    assert (Hc : forall y x, y < h -> x < w -> _)
+      by (intros y x Hy Hx; exact (proj1 (nmp_cell_true_gen _ _ _ _ _ _ _ _ _ _ _ y x _ (Hends y x Hy Hx)) (Hcell y x Hy Hx))).
+    clear Hcell. cbv beta in Hc.
+    set (P' := fun v => Nat.ltb v (h * w) && Pi v).
+    assert (HP' : forall y x, y < h -> x < w -> P' (y * w + x) = Pi (y * w + x)).
+    { intros y x Hy Hx. unfold P'. destruct (Nat.ltb_spec (y * w + x) (h * w)) as [_|L]; [reflexivity|].
+      pose proof (grid_cell_lt h w y x Hy Hx). lia. }
+    assert (Hcnt : forall y x, y < h -> x < w ->
+              nmt_deg g P' (y * w + x) = count (fun c => Pi (cidx w c)) (nbr4 h w y x)).
+    { intros y x Hy Hx. unfold nmt_deg. rewrite (nmg_count_nbrs h w y x P' Hy Hx). apply count_ext_in.
+      intros [y' x'] Hn. destruct (nbr4_in h w y x y' x' Hy Hx Hn). apply HP'; assumption. }
+    pose proof (Hc ys xs Hys Hxs) as [_ [_ [Hs _]]]. rewrite Nat.eqb_refl in Hs. destruct Hs as [Ps Cs].
+    unfold cidx in Ps; cbn [fst snd] in Ps.
+    assert (Ws : Wi s = true).
+    { pose proof (Himp ys xs Hys Hxs) as I. unfold cidx in I; cbn [fst snd] in I. rewrite Ps in I. exact I. }
+    apply (nmt_one_end g (grid_wf h w) (grid_loop_free h w) Wi HWn Hbr s P' Ws).
+    - intros c Hpc. unfold P' in Hpc. apply andb_true_iff in Hpc. destruct Hpc as [L Hpc]. apply Nat.ltb_lt in L.
+      destruct (nmp_cell_of h w c L) as [y [x [Hy [Hx ->]]]].
+      pose proof (Himp y x Hy Hx) as I. unfold cidx in I; cbn [fst snd] in I. rewrite Hpc in I. exact I.
+    - rewrite HP' by assumption. exact Ps.
+    - rewrite Hcnt by assumption. exact Cs.
+    - intros c Hpc Hcs. pose proof Hpc as Hpc'. unfold P' in Hpc'. apply andb_true_iff in Hpc'.
+      destruct Hpc' as [L Hpi]. apply Nat.ltb_lt in L.
+      destruct (nmp_cell_of h w c L) as [y [x [Hy [Hx ->]]]]. rewrite Hcnt by assumption.
+      pose proof (Hc y x Hy Hx) as [_ [_ [Hd _]]].
+      rewrite (proj2 (Nat.eqb_neq _ _) Hcs) in Hd. apply Hd. exact Hpi.
+  Qed.
+End OneEndCore.
+
 (* ------------------------------------------------------------------ the theorem *)
 Lemma nmp_white_lt (ans : answer) n v : length ans = n -> isb (getz ans v) = true -> v < n.
 Proof.
@@ -398,32 +462,29 @@ Proof.
   unfold getz in H. rewrite nth_overflow in H by lia. discriminate.
 Qed.
 
-Theorem nurimaze_exact h w wv wh mark sy sx gy gx st ans :
-  on_board h w sy sx = true -> on_board h w gy gx = true -> (sy, sx) <> (gy, gx) ->
+(* the models of the posted program, for any S / G: the unshaded cells form a tree and some path grid satisfies
+   the constraints posted after the helper *)
+Lemma nurimaze_model_iff h w wv wh mark sy sx gy gx st ans :
   solve_nurimaze_model [[Z.of_nat h; Z.of_nat w]; wv; wh; mark; [sy; sx; gy; gx]] = Ok st ->
-  ((exists en, model_of gsem_avc en st /\ reads st en (seq 0 (h * w)) = ans)
-   <-> rules_nurimaze [[Z.of_nat h; Z.of_nat w]; wv; wh; mark; [sy; sx; gy; gx]] ans = true).
+  ((exists en, model_of gsem_avc en st /\ reads st en (seq 0 (h * w)) = ans) <->
+   (length ans = h * w /\ forallb is01 ans = true /\ tree (grid_graph h w) (fun v => isb (getz ans v)) /\
+    exists Pi : nat -> bool,
+      nm_sem h w wv wh mark sy sx gy gx (fun c => isb (getz ans (cidx w c))) (fun c => Pi (cidx w c)) = true)).
 Proof.
-  intros Hsb Hgb Hne.
-  destruct (nmp_on_board h w sy sx Hsb) as [ys [xs [-> [-> [Hys Hxs]]]]].
-  destruct (nmp_on_board h w gy gx Hgb) as [yg [xg [-> [-> [Hyg Hxg]]]]].
-  assert (Hst : ys * w + xs <> yg * w + xg).
-  { intros E. apply nmg_cell_inj in E; [|assumption|assumption]. destruct E; subst. apply Hne. reflexivity. }
   unfold solve_nurimaze_model.
-  destruct (dims2n h w [wv; wh; mark; [Z.of_nat ys; Z.of_nat xs; Z.of_nat yg; Z.of_nat xg]]) as [-> ->].
-  set (pb := [[Z.of_nat h; Z.of_nat w]; wv; wh; mark; [Z.of_nat ys; Z.of_nat xs; Z.of_nat yg; Z.of_nat xg]]).
+  destruct (dims2n h w [wv; wh; mark; [sy; sx; gy; gx]]) as [-> ->].
+  set (pb := [[Z.of_nat h; Z.of_nat w]; wv; wh; mark; [sy; sx; gy; gx]]).
   change (sec pb 1) with wv. change (sec pb 2) with wh. change (sec pb 3) with mark.
-  change (getz (sec pb 4) 0) with (Z.of_nat ys). change (getz (sec pb 4) 1) with (Z.of_nat xs).
-  change (getz (sec pb 4) 2) with (Z.of_nat yg). change (getz (sec pb 4) 3) with (Z.of_nat xg).
+  change (getz (sec pb 4) 0) with sy. change (getz (sec pb 4) 1) with sx.
+  change (getz (sec pb 4) 2) with gy. change (getz (sec pb 4) 3) with gx.
   destruct (post_avc (bool_grid_state (h * w) []) (map BVar (seq 0 (h * w))) (grid_graph h w) true false)
     as [st1|e] eqn:Hp; [|discriminate].
   destruct (Nat.ltb (length wv) (h * (w - 1)) || Nat.ltb (length wh) ((h - 1) * w) || Nat.ltb (length mark) (h * w));
     [discriminate|].
   intros H. injection H as Hst'.
-  unfold pb. rewrite rules_nurimaze_split.
   set (n := h * w) in *. set (st0 := bool_grid_state n []) in *.
   set (more := repeat DBool n).
-  set (extra := nurimaze_constraints (next_id st1) h w wv wh mark (Z.of_nat ys) (Z.of_nat xs) (Z.of_nat yg) (Z.of_nat xg)) in *.
+  set (extra := nurimaze_constraints (next_id st1) h w wv wh mark sy sx gy gx) in *.
   assert (Hv0 : vars st0 = repeat DBool n) by reflexivity.
   assert (Hc0 : Program.cons st0 = []) by reflexivity.
   assert (Hvars : vars st = vars st1 ++ more) by (rewrite <- Hst'; reflexivity).
@@ -432,34 +493,25 @@ Proof.
   pose proof (tcompose_next h w st0 st1 Hv0 Hp) as Hnext. fold n in Hnext.
   assert (Hreads : forall en, reads st en (seq 0 n) = map (fun i => b2z (eb en i)) (seq 0 n)).
   { intros en. eapply reads_bool_prefix. rewrite Hvars, (tcompose_vars h w st0 st1 Hv0 Hp). rewrite <- !app_assoc. reflexivity. }
-  set (s := ys * w + xs) in *. set (t := yg * w + xg) in *.
   split.
-  - (* every model obeys the rules *)
+  - (* a model *)
     intros [en [Hm Hr]]. rewrite Hreads in Hr. apply Hmodel in Hm. destruct Hm as [Hrk [Hce [_ Hex]]].
     pose proof (tcompose_sound h w en Hrk Hce) as Htree.
     assert (Hlen : length ans = n) by (rewrite <- Hr, map_length, seq_length; reflexivity).
-    rewrite (proj2 (Nat.eqb_eq _ _) Hlen).
-    replace (forallb is01 ans) with true
-      by (rewrite <- Hr, forallb_map; symmetry; apply forallb_forall; intros; apply is01_b2z).
-    cbn [andb].
     assert (Hpat : forall v, pattern en (map BVar (seq 0 n)) v = isb (getz ans v)).
     { intros v. rewrite <- Hr. symmetry. apply reading_act. }
-    apply (nmp_core_sound h w wv wh mark ys xs yg xg Hys Hxs Hyg Hxg Hst (fun v => isb (getz ans v))
-             (fun v => nmp_white_lt ans n v Hlen) (fun v => eb en (next_id st1 + v))).
-    + apply (spec_avc_ext true _ _ _ Hpat). exact Htree.
-    + unfold extra in Hex. rewrite nurimaze_constraints_sem in Hex. rewrite <- Hex. apply nm_sem_ext.
-      * intros y x Hy Hx. rewrite <- Hpat, pattern_acts.
-        pose proof (cidx_lt h w y x Hy Hx) as L. fold n in L. destruct (Nat.ltb_spec (cidx w (y, x)) n); [reflexivity|lia].
-      * intros y x _ _. reflexivity.
-  - (* every rule-obeying grid extends to a model *)
-    intros Hr. apply andb_true_iff in Hr. destruct Hr as [Hr Hcore]. apply andb_true_iff in Hr. destruct Hr as [Hlen H01].
-    apply Nat.eqb_eq in Hlen.
+    split; [exact Hlen|]. split; [rewrite <- Hr, forallb_map; apply forallb_forall; intros; apply is01_b2z|].
+    split; [apply (spec_avc_ext true _ _ _ Hpat); exact Htree|].
+    exists (fun v => eb en (next_id st1 + v)).
+    unfold extra in Hex. rewrite nurimaze_constraints_sem in Hex. rewrite <- Hex. apply nm_sem_ext.
+    + intros y x Hy Hx. rewrite <- Hpat, pattern_acts.
+      pose proof (cidx_lt h w y x Hy Hx) as L. fold n in L. destruct (Nat.ltb_spec (cidx w (y, x)) n); [reflexivity|lia].
+    + intros y x _ _. reflexivity.
+  - (* a tree and a path grid extend to a model *)
+    intros [Hlen [H01 [Htree [Pi Hsem]]]].
     set (Wi := fun v => isb (getz ans v)) in *.
     assert (HWn : forall v, Wi v = true -> v < n) by (intros v; apply nmp_white_lt; exact Hlen).
-    destruct (nmp_core_complete h w wv wh mark ys xs yg xg Hys Hxs Hyg Hxg Hst Wi HWn Hcore) as [Htree Hsem].
-    fold s t in Hsem.
-    set (R := nmt_R (grid_graph h w) Wi s t) in *.
-    set (en0 := {| eb := fun i => if Nat.ltb i (3 * n) then Wi i else R (i - 3 * n); ei := fun _ => 0%Z |}).
+    set (en0 := {| eb := fun i => if Nat.ltb i (3 * n) then Wi i else Pi (i - 3 * n); ei := fun _ => 0%Z |}).
     assert (Hpat : forall v, Wi v = pattern en0 (map BVar (seq 0 n)) v).
     { intros v. rewrite pattern_acts. cbn [eb en0]. destruct (Nat.ltb_spec v n) as [L|L].
       - destruct (Nat.ltb_spec v (3 * n)); [reflexivity|lia].
@@ -477,6 +529,81 @@ Proof.
         destruct (Nat.ltb_spec (3 * n + cidx w (y, x)) (3 * n)); [lia|]. f_equal. lia.
     + rewrite Hreads. transitivity (map (fun i => b2z (eb (env_of_answer ans) i)) (seq 0 n)); [|apply answer_as_reading; assumption].
       apply map_ext_in. intros i Hi. apply in_seq in Hi. rewrite Hlow by lia. reflexivity.
+Qed.
+
+Theorem nurimaze_exact h w wv wh mark sy sx gy gx st ans :
+  on_board h w sy sx = true -> on_board h w gy gx = true -> (sy, sx) <> (gy, gx) ->
+  solve_nurimaze_model [[Z.of_nat h; Z.of_nat w]; wv; wh; mark; [sy; sx; gy; gx]] = Ok st ->
+  ((exists en, model_of gsem_avc en st /\ reads st en (seq 0 (h * w)) = ans)
+   <-> rules_nurimaze [[Z.of_nat h; Z.of_nat w]; wv; wh; mark; [sy; sx; gy; gx]] ans = true).
+Proof.
+  intros Hsb Hgb Hne Hst.
+  rewrite (nurimaze_model_iff h w wv wh mark sy sx gy gx st ans Hst), rules_nurimaze_split.
+  destruct (nmp_on_board h w sy sx Hsb) as [ys [xs [-> [-> [Hys Hxs]]]]].
+  destruct (nmp_on_board h w gy gx Hgb) as [yg [xg [-> [-> [Hyg Hxg]]]]].
+  assert (Hst' : ys * w + xs <> yg * w + xg).
+  { intros E. apply nmg_cell_inj in E; [|assumption|assumption]. destruct E; subst. apply Hne. reflexivity. }
+  split.
+  - intros [Hlen [H01 [Htree [Pi Hsem]]]]. rewrite (proj2 (Nat.eqb_eq _ _) Hlen), H01. cbn [andb].
+    exact (nmp_core_sound h w wv wh mark ys xs yg xg Hys Hxs Hyg Hxg Hst' (fun v => isb (getz ans v))
+             (fun v => nmp_white_lt ans (h * w) v Hlen) Pi Htree Hsem).
+  - intros Hr. apply andb_true_iff in Hr. destruct Hr as [Hr Hcore]. apply andb_true_iff in Hr. destruct Hr as [Hlen H01].
+    apply Nat.eqb_eq in Hlen.
+    destruct (nmp_core_complete h w wv wh mark ys xs yg xg Hys Hxs Hyg Hxg Hst' (fun v => isb (getz ans v))
+                (fun v => nmp_white_lt ans (h * w) v Hlen) Hcore) as [Htree Hsem].
+    split; [exact Hlen|]. split; [exact H01|]. split; [exact Htree|].
+    eexists. exact Hsem.
+Qed.
+
+(* the same with the weakest hypothesis on S and G: at least one of them is a cell of the board.  When the other
+   one is off the board, or both are the same cell, the rules have no solution and the posted program has no model
+   (a path with a single end).  With both off the board the program no longer mentions S and G. *)
+Lemma nmp_core_heads h w wv wh mark sy sx gy gx white :
+  rules_core h w wv wh mark sy sx gy gx white = true ->
+  on_board h w sy sx = true /\ on_board h w gy gx = true /\ zn sy * w + zn sx <> zn gy * w + zn gx.
+Proof.
+  unfold rules_core. cbv zeta. rewrite !andb_true_iff. intros [[[[[[[[[[H1 H2] H3] _] _] _] _] _] _] _] _].
+  split; [exact H1|]. split; [exact H2|]. apply negb_true_iff, Nat.eqb_neq in H3. exact H3.
+Qed.
+
+Theorem nurimaze_exact_gen h w wv wh mark sy sx gy gx st ans :
+  on_board h w sy sx = true \/ on_board h w gy gx = true ->
+  solve_nurimaze_model [[Z.of_nat h; Z.of_nat w]; wv; wh; mark; [sy; sx; gy; gx]] = Ok st ->
+  ((exists en, model_of gsem_avc en st /\ reads st en (seq 0 (h * w)) = ans)
+   <-> rules_nurimaze [[Z.of_nat h; Z.of_nat w]; wv; wh; mark; [sy; sx; gy; gx]] ans = true).
+Proof.
+  intros Hor Hst.
+  assert (Hone : forall ys xs, ys < h -> xs < w ->
+            (forall y x, y < h -> x < w -> nm_is y x sy sx || nm_is y x gy gx = Nat.eqb (y * w + x) (ys * w + xs)) ->
+            (on_board h w sy sx && on_board h w gy gx && negb (Nat.eqb (zn sy * w + zn sx) (zn gy * w + zn gx)) = false) ->
+            ((exists en, model_of gsem_avc en st /\ reads st en (seq 0 (h * w)) = ans)
+             <-> rules_nurimaze [[Z.of_nat h; Z.of_nat w]; wv; wh; mark; [sy; sx; gy; gx]] ans = true)).
+  { intros ys xs Hys Hxs Hends Hhead. split.
+    - intros Hm. exfalso. apply (nurimaze_model_iff h w wv wh mark sy sx gy gx st ans Hst) in Hm.
+      destruct Hm as [Hlen [_ [Htree [Pi Hsem]]]].
+      exact (nmp_one_end h w wv wh mark sy sx gy gx ys xs Hys Hxs Hends (fun v => isb (getz ans v))
+               (fun v => nmp_white_lt ans (h * w) v Hlen) Pi Htree Hsem).
+    - intros Hr. exfalso. rewrite rules_nurimaze_split in Hr. apply andb_true_iff in Hr. destruct Hr as [_ Hcore].
+      apply nmp_core_heads in Hcore. destruct Hcore as [H1 [H2 H3]]. rewrite H1, H2 in Hhead. cbn [andb] in Hhead.
+      apply negb_false_iff, Nat.eqb_eq in Hhead. contradiction. }
+  destruct (on_board h w sy sx) eqn:Hs; destruct (on_board h w gy gx) eqn:Hg.
+  - destruct (Z.eq_dec sy gy) as [Ey|Ny]; [destruct (Z.eq_dec sx gx) as [Ex|Nx]|].
+    + (* S = G *)
+      subst gy gx. destruct (nmp_on_board h w sy sx Hs) as [ys [xs [-> [-> [Hys Hxs]]]]].
+      apply (Hone ys xs Hys Hxs).
+      * intros y x Hy Hx. rewrite orb_diag, nmp_is. apply nmp_is_cell; assumption.
+      * rewrite Nat.eqb_refl. reflexivity.
+    + apply nurimaze_exact; [exact Hs|exact Hg| |exact Hst]. intros E. inversion E. contradiction.
+    + apply nurimaze_exact; [exact Hs|exact Hg| |exact Hst]. intros E. inversion E. contradiction.
+  - (* only S on the board *)
+    destruct (nmp_on_board h w sy sx Hs) as [ys [xs [-> [-> [Hys Hxs]]]]].
+    apply (Hone ys xs Hys Hxs); [|reflexivity].
+    intros y x Hy Hx. rewrite (nmp_is_off h w y x gy gx Hg Hy Hx), orb_false_r, nmp_is. apply nmp_is_cell; assumption.
+  - (* only G on the board *)
+    destruct (nmp_on_board h w gy gx Hg) as [yg [xg [-> [-> [Hyg Hxg]]]]].
+    apply (Hone yg xg Hyg Hxg); [|reflexivity].
+    intros y x Hy Hx. rewrite (nmp_is_off h w y x sy sx Hs Hy Hx). cbn [orb]. rewrite nmp_is. apply nmp_is_cell; assumption.
+  - destruct Hor; discriminate.
 Qed.
 
 (* the model is defined on every board with at least one cell and arrays that cover it *)
